@@ -67,6 +67,13 @@ CHECKS["C19"] = dict(
     ref="4/C19",
 )
 
+CHECKS["C10"] = dict(
+    technique="mutation-logging containers (FrozenList/FrozenDict) + deep structural snapshot/compare of every caller-supplied layer around real renders (also failed ones); exhaustive enumeration of namespace-layer subsets for lookup precedence",
+    text="Exploration with an exhaustive sub-family: ~6.6e4 (quick) real renders apply every registered filter (23 argument forms) and 60 tag/aliasing forms to every container reachable from four data layers (env globals, template globals, loader matter, render args); any logged mutating call or deep difference after the render is a violation. Lookup precedence is enumerated exhaustively: all 128 subsets of the layers for names n, now, today at 13 lookup sites in root/include/render/macro/block contexts.",
+    note="Trusted: the mutation log covers list/dict methods (C-level bypasses are caught by the deep diff); JSON-like caller data only.",
+    ref="4/C10",
+)
+
 NOT_YET = {}
 
 def main():
